@@ -149,6 +149,10 @@ def make_class(spec):
     from frappy.persistent import PersistentMixin, PersistentParam
     attrs = {'writes': []}
     for p in spec['params']:
+        if p.get('limit_of'):
+            from frappy.persistent import PersistentLimit
+            attrs[p['name']] = PersistentLimit()      # a persistent limit of the parameter defined before
+            continue
         attrs[p['name']] = PersistentParam(f"persistent {p['name']}", specs.build(p['T']), default=p['default'],
                                            persistent=p['persistent'], readonly=bool(p.get('readonly')))
         if p.get('write') and not p.get('readonly'):
@@ -232,6 +236,11 @@ def module_case(draw):
                        'persistent': draw(st.sampled_from(['on', 'auto', 'auto'])), 'write': draw(st.booleans()),
                        # read-only for clients and without write method: only the driver changes it (encoder, counter ...)
                        'readonly': draw(st.integers(0, 3)) == 0})
+    for p in list(params):
+        if p['T']['k'] in ('double', 'int') and not p['readonly'] and draw(st.integers(0, 2)) == 0:
+            hi = rm.dlimits(p['T'])[1] if p['T']['k'] == 'double' else p['T']['max']
+            params.append({'name': p['name'] + '_max', 'T': p['T'], 'default': hi, 'persistent': 'on', 'write': False, 'readonly': False,
+                           'limit_of': p['name']})
     history = []
     for _ in range(draw(st.integers(1, 4))):
         p = draw(st.sampled_from(params))
